@@ -29,6 +29,7 @@ type Env struct {
 	depth int
 	qd    int // quantifier nesting depth
 	noReg bool
+	frame *frame // the activation whose variables the clause may name (loop invariants)
 	iterHeap string // visited-set heap of the map iterator of the enclosing loop
 	noQuant bool
 	guards []string // antecedents enclosing the current position (for registered forall facts)
@@ -229,11 +230,20 @@ func (e *Env) ident(n string) CV {
 	}
 	if e.cells != nil {
 		if c, ok := e.cells[n]; ok {
+			et := c.Type().Underlying().(*types.Pointer).Elem()
+			if c.Heap && e.frame != nil {
+				// a variable captured by a closure lives in a heap box
+				if ref, ok := e.frame.vals[c]; ok {
+					if _, isStruct := et.Underlying().(*types.Struct); !isStruct {
+						return CV{T{g.readHeap(e.st, g.boxHeapOf(et), ref.S), g.sortOf(et)}, et}
+					}
+				}
+			}
 			v, live := e.st.cells[c]
 			if !live {
 				fail("contract names variable %q which is not live at this point", n)
 			}
-			return CV{v, c.Type().Underlying().(*types.Pointer).Elem()}
+			return CV{v, et}
 		}
 	}
 	if gt, ok := g.Specs.GhostVar[n]; ok {
@@ -640,6 +650,8 @@ func (e *Env) call(x *CE, pos bool) CV {
 		}
 		k = e.coerce(k, g.mapKeySort(mt))
 		return g.cv("(select "+g.readHeap(e.st, g.mapHasHeap(mt), m.S)+" "+k.S+")", "Bool", nil)
+	case "isbool":
+		return g.cv("((_ is ABool) "+argv(0).S+")", "Bool", nil)
 	case "pair":
 		kt, _ := g.resolveType("KVPair")
 		so := g.sortOf(kt)
@@ -963,8 +975,10 @@ func (e *Env) boundedExists(x *CE, pos bool) (CV, bool) {
 	for _, c := range conj[3:] {
 		rest = &CE{Op: "bin", Name: "&&", Args: []*CE{rest, c}}
 	}
+	snap := *e
+	snap.st = e.st.clone()
 	body := func(t string) string {
-		en := e.with(map[string]CV{iv: {T{t, "Int"}, nil}})
+		en := snap.with(map[string]CV{iv: {T{t, "Int"}, nil}})
 		en.noQuant = true
 		g.s.noDef++
 		r := en.tr(rest, pos)
@@ -979,6 +993,19 @@ func (e *Env) boundedExists(x *CE, pos bool) (CV, bool) {
 		id = fmt.Sprintf("ex.%d", len(g.exIDs))
 		g.exIDs[canon] = id
 		g.s.lines = append(g.s.lines, "(declare-fun "+id+" (Int) Bool)")
+	}
+	// witness rule: 0 <= j < N && P(j) ==> ex(N), instantiated lazily like an assumed forall
+	wkey := id + "|wit|" + n.S
+	if !g.memSeen[wkey] && !e.noReg {
+		g.memSeen[wkey] = true
+		nS := n.S
+		ff := &forallFact{sort: "Int", guard: "true", outer: "true", inst: func(t string) string {
+			return imp(and("(<= 0 "+t+")", "(< "+t+" "+nS+")", body(t)), app(id, nS))
+		}}
+		g.foralls = append(g.foralls, ff)
+		for _, t := range append([]string{}, g.instTerms["Int"]...) {
+			g.instOne(ff, t)
+		}
 	}
 	cur := n.S
 	for d := 0; d < 2; d++ {
